@@ -14,6 +14,121 @@ TRUST = ('Trusted base: CPython `ast` (parsing of the analysed sources), the rul
          '(each frozen instance carries its reason), ')
 
 CHECKS = {
+    'C01': dict(
+        cat='other', sec='DESIGN.md 2/C01',
+        technique='writer/reader table agreement + regex-automaton inclusion and token-order shadowing + slot-flow identity (static)',
+        text='Decides structural necessary conditions of the round trip on every path of writer and reader: the five type '
+             'tables agree; every SQL string token written is quote-escaped and every one read is unescaped; each value '
+             'format written lies inside the token language the reader accepts for that type and no earlier token rule '
+             'steals its beginning (automaton inclusion / prefix tests in ply order); string routes and file routes emit the '
+             'same statement families from unfiltered collections; the ROP fields flow through writer and reader as the '
+             'identity; reserved words are admitted as identifiers; only new/delete touch the instance order.  Equality of '
+             'loaded values is not decided.',
+        note=TRUST + 're._parser for the regex dialect. Value equality, real rounding and the fixed-point claim are runtime quantities.'),
+    'C03': dict(
+        cat='other', sec='DESIGN.md 2/C03',
+        technique='phase-order / partition / call-graph funnel rules + sibling agreement of the two key functions typed by the association role model (static)',
+        text='populate() runs the five passes once each in dependency order; each statement class is consumed by exactly one '
+             'pass and every grammar statement builds one of them; every input route (file, directory, zip, helper functions) '
+             'ends in ModelLoader.input and stores nothing else; compute_lookup_key / compute_index_key use one name space, one '
+             'null rule (_is_null truth table) and one key shape, and populate_connections indexes the referred and probes with '
+             'the referring class of the same link; MetaClass.new must resolve links in the direction the loader does.',
+        note=TRUST + 'the association role model derived from define_association. Equality of the hash join with the relational join for all value types is not decided.'),
+    'C04': dict(
+        cat='other', sec='DESIGN.md 2/C04',
+        technique='exhaustiveness of evaluators vs grammar-constructible nodes + operator-table/AST-shape comparison + exception pairing + abstract if/elif tables (static)',
+        text='Every Node class the grammar can construct for the constructs of C04 has an evaluator (difference set frozen with '
+             'reasons); the binary/unary operator tables cover the grammar operators and each lambda is the Python operation of '
+             'its lexeme on (left, right); break/continue/return/stop are raised and caught exactly where they belong; if / '
+             'elif-list / elif are executed abstractly over all condition outcomes; where-closures bind selected in a fresh block; '
+             'select evaluators branch on the normalised cardinality; slot table of statement evaluators.',
+        note=TRUST + 'xtuml.relate/select/navigate behave as C02/C09 decide. Whole-program equivalence with a reference evaluator is not decided.'),
+    'C05': dict(
+        cat='other', sec='DESIGN.md 2/C05',
+        technique='handler exhaustiveness + schema type-check of navigations + succession-direction (writer/reader) agreement + operand-role identity + inverse-pair table (static)',
+        text='prebuild handles every constructible Node class and sourcegen generates every kind prebuild can create; every '
+             'navigation of sourcegen type-checks against the schema; R661/R816/R604 are read in the direction they are written '
+             'and both agree with the schema key names; for multi-operand constructs grammar position -> node field -> '
+             'association number -> emission order is the identity; literal/operator/phrase encodings are inverse pairs; '
+             'thorough adds the sentential-form derivation of every generator against the grammar.',
+        note=TRUST + 'name resolution succeeds (well-formed, name-resolved programs).'),
+    'C06': dict(
+        cat='other', sec='DESIGN.md 2/C06',
+        technique='kind inference + schema type-check of every relate/navigation/new + all-paths subtype/type/return rules + obligations of unconditional associations (static)',
+        text='All relate, navigation and new() sites of prebuild.py are type-checked against the ooaofooa schema text (a site is '
+             'a violation only if no possible kind admits it); R661/R816/R604 are chained so that the Previous*/Next* key '
+             'designates the neighbour; on every path each statement/value gets exactly one R603/R801 subtype and each value '
+             'its R820 type; handlers return the instance their callers chain; position and typing slot tables; every created '
+             'instance is related across all unconditional associations of its class.',
+        note=TRUST + 'the independent 60-line reader of bridgepoint/schema.py. Uniqueness of generated ids and is_consistent() of a concrete program are not decided.'),
+    'C07': dict(
+        cat='proof', sec='DESIGN.md 2/C07',
+        technique='LALR(1) automaton generated from the extracted grammar; exhaustive operator-pair action table (static, exhaustive over a finite object)',
+        text='The grammar is the program: productions, precedence and %prec are extracted from oal.py, the LALR(1) tables are '
+             'generated from that text and the parser action for EVERY ordered pair of adjacent binary operators and every '
+             'unary/binary pair is read in every state holding the completed operator item and compared with the precedence '
+             'table of the property (reduce / shift / error); no conflict is resolved by default; layout tokens are never '
+             'returned; productions differing only by an optional word have identical actions.  Exhaustive for the expression clause.',
+        note='Trusted base: ply.yacc LALR construction used as a library, CPython ast, the docstring extraction in sa/grammar.py. '
+             'Whether a stale generated __oal_parsetab.py on disk matches the grammar is a build matter and not decided.'),
+    'C08': dict(
+        cat='other', sec='DESIGN.md 2/C08',
+        technique='taint analysis: keyword-carrying Node fields computed from the grammar -> enumerated sinks, sanitised by case normalisers (static)',
+        text='Sources are computed, not listed: a Node constructor field is keyword-carrying if some production fills it from a '
+             'position whose symbol derives only keyword terminals. Every read of such a field in the interpreter, the '
+             'prebuilder and the Node classes is followed to comparison / membership / dictionary-key / persisted-attribute '
+             'sinks and must pass .lower/.upper/.casefold or the normalising accessor first; t_ID decides keyword-ness on the '
+             'upper-cased lexeme and the END_* regexes are case-closed.',
+        note=TRUST + 'identifiers that merely coincide with keywords are names, not keywords.'),
+    'C09': dict(
+        cat='other', sec='DESIGN.md 2/C09',
+        technique='abstract tables of the query pipeline and equality filter + sibling comparison of the query entry points (static)',
+        text='Thin structural clauses: apply_query_operators applies every operator kind to the running result; WhereEqual yields '
+             'an instance iff all components match (table over match flags); select_one/select_many/NavChain()/NavOneChain() '
+             'share one pipeline and MetaModel delegates unchanged; OrderBy is a stable sort with reverse only on request; '
+             'navigate is the direct link or the ordered duplicate-free two-hop union. Result sets of concrete states are not decided.',
+        note=TRUST + 'OrderedSet behaves as an insertion-ordered set (C17, not claimed).'),
+    'C13': dict(
+        cat='other', sec='DESIGN.md 2/C13',
+        technique='exact exponential-ambiguity test on regex automata + all-paths rules on token rules (newline reachability decided on the automaton) + decorator coverage (static)',
+        text='Every OAL token regex is free of exponential ambiguity (product-automaton criterion, exact); p_error raises '
+             'ParseException on every path and t_error skips >= 1 character; every returning token rule sets endlexpos = lexpos '
+             '+ len(value) on all paths; every token rule whose regex automaton can consume a newline counts its newlines; every '
+             'Node-constructing production is position-tracked; slot table of set_positional_info / find_column / track_production.',
+        note=TRUST + 're._parser, and the ply contracts for lexspan/linespan with tracking=1. Positions of nodes from empty productions are not decided.'),
+    'C14': dict(
+        cat='other', sec='DESIGN.md 2/C14',
+        technique='provenance (definition-substituted) comparison of association arguments + schema type-check + dispatch/forwarding rules (static)',
+        text='At the three define_association call sites each keyword argument, after substituting local definitions, must come '
+             'from the matching BridgePoint participant (referring = R_RGO side, referred = R_RTO side, multiplicities from the '
+             'facing end, phrases crossed once); _get_related_attributes pairs referential with identifying attributes; the '
+             'dispatch table equals the R206 subtypes; attributes follow R103; the data type mapping is executed abstractly; '
+             'every configuration parameter of the entry points reaches mk_component.',
+        note=TRUST + 'the ooaofooa schema reader. Effects of edit scripts on concrete models are not decided.'),
+    'C15': dict(
+        cat='other', sec='DESIGN.md 2/C15',
+        technique='nullable-field contradiction rule from the grammar + freshness/ownership rules + slot flow of parameters and receiver (static)',
+        text='Fields the grammar may leave None are never dereferenced unguarded after accept(); each run_* builds a new walker '
+             'and symbol table and nothing is cached at class/module level; parameters are bound by name through **kwargs, self '
+             'is the receiving instance (None for class-based operations); return_value is written only by the return evaluator '
+             'and read only by run_*; enumerators are numbered along R56 and constants converted by their modelled type.',
+        note=TRUST + 'values computed by nested/recursive calls are not decided, only that each call has its own scope.'),
+    'C18': dict(
+        cat='other', sec='DESIGN.md 2/C18',
+        technique='escape/ownership analysis of statement data handed to the metamodel API + freshness rules (static)',
+        text='Every mutable statement field passed by the populate passes is classified in the callee (copied vs stored by '
+             'reference, followed two call levels); reference-stored fields must have no in-place mutator anywhere in the '
+             'repository; every container of MetaModel/MetaClass/Link is created empty in __init__; the loader keeps no '
+             'build-derived state; no shared mutable class attributes or defaults; the passes never write to statement objects.',
+        note=TRUST + 'user code mutating Association.source_keys in place is outside the listed changes.'),
+    'C20': dict(
+        cat='other', sec='DESIGN.md 2/C20',
+        technique='dispatch-table agreement + succession-order reader rule + schema type-check + ElementTree-only scan (static)',
+        text='Thin structural clauses: the data type kinds that get a name are exactly those that get a declaration and the '
+             'core type table is the specified one; enumerators/members are emitted along R56/R46; classes and types are '
+             'selected by the same containment predicate; attributes are typed by the referred base attribute with user types '
+             'unwrapped and derived attributes skipped; markup is built through ElementTree only.',
+        note=TRUST + 'completeness of the schema for a concrete model is not decided.'),
     'C02': dict(
         cat='other', sec='DESIGN.md 2/C02',
         technique='finite abstract interpretation of Link.connect/disconnect/relate/unrelate/delete + role typing of link operations (static)',
